@@ -88,6 +88,18 @@ def run(cfg, V):
     with pushed(db):
         info = db.unit_to_unit_info[u]
         qt = info.quantity_type
+        # history: the spelling is first looked up under a WRONG quantity type (rightly refused), before any legitimate use
+        from barril.units import UnitsError
+
+        wrong = "time" if qt != "time" else "length"
+        for call in (lambda: db.Convert(wrong, sp, db.GetUnits(wrong)[0], 1.0), lambda: db.GetInfo(wrong, sp), lambda: Scalar(1.0, sp, wrong)):
+            try:
+                call()
+                wrongly_accepted = True
+            except UnitsError:
+                wrongly_accepted = False
+            if wrongly_accepted:
+                break
         base = db.GetUnits(qt)[0]
         other = [w for w in db.GetUnits(qt) if w != u][:1]
         cat = db.GetDefaultCategory(u)
@@ -111,6 +123,11 @@ def run(cfg, V):
         o["other_cats"] = [c for c in others if not (Scalar(x, sp, c) == Scalar(x, u, c) and Scalar(x, sp, c).GetUnit() == u and Array([x], sp, c) == Array([x], u, c))]
         q_direct = Quantity(cat, sp)
         q_cap = ObtainQuantity(sp, cat, "second caption")
+        o["wrong_type_refused"] = not wrongly_accepted
+        o["captioned"] = (ObtainQuantity(sp, cat, "gas rate") == ObtainQuantity(u, cat, "gas rate"), ObtainQuantity(sp, cat, "gas rate").GetUnknownCaption(),
+                          ObtainQuantity(u, cat).GetUnknownCaption(), Scalar(x, u, cat).GetQuantity().GetUnknownCaption())
+        o["other_cats_convert"] = [c for c in others if not (_same_term(Scalar(x, base, c).GetValue(sp), Scalar(x, base, c).GetValue(u))
+                                                              and Scalar(x, base, c).CreateCopy(unit=sp) == Scalar(x, base, c).CreateCopy(unit=u))]
         o["second_use"] = (q_direct == ObtainQuantity(u, cat), q_direct.GetUnit(), q_cap.GetUnit(), Scalar(q_direct, x) == Scalar(x, u, cat))
         # category registration with legacy spellings
         i1 = db.AddCategory("c16_a", qt, valid_units=[sp] + other, default_unit=sp)
@@ -120,6 +137,15 @@ def run(cfg, V):
         o["addcat"] = (i1.default_unit, list(i1.valid_units), i2.default_unit, list(i2.valid_units), i3.default_unit, list(i3.valid_units), [u] + other, base)
         o["addcat_use"] = Scalar("c16_a").GetUnit() == u and Scalar(x, sp, "c16_b") == Scalar(x, u, "c16_b") and u in db.GetValidUnits("c16_c")
         return o
+
+
+def _same_term(a, b):
+    from symx import core
+
+    try:
+        return z3.is_true(z3.simplify(core.term(a) == core.term(b)))
+    except core.HarnessError:
+        return a == b
 
 
 def props(cfg, T, obs):
@@ -142,6 +168,9 @@ def props(cfg, T, obs):
         ("ObtainQuantity builds the equal quantity (current unit inside)", bool(obs["q"])),
         ("Scalar forms equal", bool(obs["scalar"])), ("Array forms equal", bool(obs["array"])), ("FixedArray equal", bool(obs["fixed"])),
         ("FractionScalar equal", bool(obs["fraction"])), ("accepted under every category of the quantity type", obs["other_cats"] == []),
+        ("a legacy spelling under a wrong quantity type is refused (also before its first legitimate use)", bool(obs["wrong_type_refused"])),
+        ("a caption given together with a legacy spelling is kept, and does not leak into caption-less quantities", obs["captioned"] == (True, "gas rate", "", "")),
+        ("GetValue(legacy) / CreateCopy(unit=legacy) work under every category of the quantity type", obs["other_cats_convert"] == []),
         ("a second, cache-bypassing use of the spelling (legacy constructor, another caption) still yields the current unit",
          obs["second_use"] == (True, u, u, True)), ("FromScalars(unit=legacy) equal", bool(obs["fromscalars"])), ("CreateCopy(unit=legacy) equal", bool(obs["copy"])),
         ("GetValue(legacy) gives the same conversion", z3.And(term(obs["getvalue"][0]) == term(obs["getvalue"][1]), approx(obs["getvalue"][0], from_base),
